@@ -481,7 +481,7 @@ CHECKS["C34"] = {
     "level": "other",
     "explanation": "create_block's row-selection query is extracted from the current body of the function (resolved from the migrations on every run) and evaluated by the SQL evaluator on a symbolic logs table (several ledgers, symbolic ids, symbolic block size) in which every row carries a 'committed when the builder first runs' bit; create_blocks' loop is unrolled to quiescence on the rows visible first, then on all rows. Decided: when ids commit in id order, the block ranges partition the ledger's log ids and every block's hashed rows are exactly the committed logs of its range; for an arbitrary commit order the same obligation is checked and yields the recorded finding (a log committing after a higher id is never hashed).",
     "bounds": {"quick": "K <= 3 logs, block size symbolic >= 1, two builder runs", "thorough": "K <= 4"},
-    "outside": "the digest itself (uninterpreted: only WHICH rows it is computed over is compared) and its text framing; more than two builder runs; the Go worker that calls the procedure",
+    "outside": "the digest itself (uninterpreted: only WHICH rows it is computed over is compared) and its text framing; more than two builder runs; the cron schedule and the Run loop of the worker (one run is decided); the SQL of the ledgers listing itself (answered from its recorded builder calls: filter, pagination predicate, order, limit)",
     "assumptions": COMMON_ASSUME[2:] + SQL_ASSUME[1:2] + ["READ COMMITTED: a run of the procedure sees exactly the rows committed before it; sequence values are drawn at insert time and never rolled back; without HASH_LOGS=SYNC nothing orders log commits by id (InsertLog takes the advisory lock only for SYNC: shown by the captured SQL per feature set)"],
     "technique": "bounded symbolic evaluation (z3) of the selection query of the stored procedure, resolved from the migrations, over symbolic tables with a symbolic commit schedule",
     "units": [py_unit("c34_blocks", "c34", []),
@@ -584,3 +584,6 @@ CHECKS["C33"] = {
                    reach=["end"], validate_witnesses=0, replay_by_label={"_reset_||^C33:persisted-position-never-ahead-of-acknowledged$": "Replay_C33_stale_store_after_reset",
                                     "_(stop_start|deliver)_||^C33:": "Replay_C33_stop_during_push_retry"})],
 }
+
+CHECKS["C34"]["explanation"] += " Go worker (gosym): one AsyncBlockRunner.run through the real storagecommon.Iterate, systemstore.Ledgers().Paginate, PaginatedResourceRepository and cursor encoding, on tables of 3, 17 and 31 ledgers (1, 2 and 3 pages of the default page size) whose ledgers at the interesting positions (first, around the page boundaries, last) are, by choice, in use / still 'initializing' (imported or never written) / not ASYNC / deleted: create_blocks is called exactly once for every listed ASYNC ledger, in that ledger's bucket, with the configured block size, and for no other ledger."
+CHECKS["C34"]["bounds"]["quick"] += "; worker: 3 / 17 / 31 ledgers, 4-way choice for 3-4 of them"
